@@ -393,6 +393,7 @@ class NetworkService(ModelElement):
         iff = Interface(name=name, node_id=node_id, parent_node_id=self.node_id,
                         etype=ElementType.NEW, topo=self.topo, itype=itype,
                         **kwargs)
+        self._interfaces.append(iff)
         return iff
 
     def remove_interface(self, *, name: str) -> None:
@@ -408,6 +409,7 @@ class NetworkService(ModelElement):
         node_id = self.topo.graph_model.find_connection_point_by_name(parent_node_id=self.node_id,
                                                                       iname=name)
         self.topo.graph_model.remove_cp_and_links(node_id=node_id)
+        self._interfaces = list(filter((lambda x: x.node_id != node_id), self._interfaces))
 
     def peer(self, ns, **kwargs) -> None:
         """
@@ -422,9 +424,6 @@ class NetworkService(ModelElement):
         # link them together with L2Path
         peer_link = Link(name=self_iface.name + '-link', topo=self.topo, etype=ElementType.NEW,
                          interfaces=[self_iface, other_iface], ltype=LinkType.L2Path)
-        # update interface lists
-        self._interfaces.append(self_iface)
-        ns._interfaces.append(other_iface)
 
     def unpeer(self, ns) -> None:
         """
